@@ -3,6 +3,7 @@
   over-approximate its concretisation, hence every solution the solver returns is sound along accepting traces.
 -/
 import TealerModel.Lemmas.Flow
+import TealerModel.Lemmas.Solver
 import TealerModel.Lemmas.Fee
 import TealerModel.Lemmas.IntSet
 import TealerModel.Lemmas.Addr
@@ -23,6 +24,16 @@ theorem txnTypeLaws : Flow.GammaLaws txnTypeAnalysis IntSet.gamma :=
 theorem addrLaws : Flow.GammaLaws addrAnalysis Addr.gamma :=
   { union_sound := fun a b v h => Addr.union_sound a b v h
     inter_sound := fun a b v ha hb => Addr.inter_sound a b v ha hb }
+
+/-- flow layer, composed: the values the forward solver RETURNS (not just any solution) admit the concrete value at every
+    block of an accepting trace — worklist theorem + soundness of any solution, under the decidable graph conditions `fwdWF` -/
+theorem solver_forward_sound {D V : Type} [DecidableEq D] {A : Analysis D} {γ : D → V → Prop} (L : Flow.GammaLaws A γ)
+    (g : Graph) (univ : D) (bc : Nat → D) (pc : Nat → Nat → D) (hwf : Solver.fwdWF g = true)
+    (r : List (Nat × D)) (h : solveFwd A g univ bc pc = some r) (v : V) (tr : List Nat)
+    (ht : Flow.FwdTrace g γ univ bc pc v tr) (hkeys : ∀ b ∈ tr, b ∈ g.keys) :
+    ∀ i, i < tr.length → γ (getMap r tr[i]! A.dom.null) v :=
+  Flow.forward_sound L g univ bc pc r v tr ht
+    (fun b hb => Solver.solveFwd_solution A g univ bc pc hwf r h b (hkeys b hb))
 
 /-- The solver's forward result is a solution of the reach-out equations (worklist theorem instantiated):
     stated for any analysis, under the two decidable graph conditions the driver checks on every program. -/
